@@ -37,6 +37,15 @@ CHECK = {
    {'pkg': 'c09', 'run': 'TestNodeMutations|TestNodeShortStrings|TestAggregateCommitEnumerated|TestSyncClientE2E|TestDownloaderTerminates', 'shards': 4, 'timeout': 2400},
    {'pkg': 'c09', 'run': 'TestCryptoEnumerated|TestProofsEnumerated', 'shards': 2, 'timeout': 2400},
    {'pkg': 'c09', 'run': 'TestRandomMutations|TestRandomBytes|TestStructuredRandom', 'checks': 600000, 'shards': 10, 'timeout': 2400},
+   # native coverage-guided campaigns (one at a time, all cores); a crasher becomes a VIOLATION with the input as replay file
+   {'pkg': 'c09', 'fuzz': 'FuzzDecoders', 'fuzztime': '75s', 'timeout': 600},
+   {'pkg': 'c09', 'fuzz': 'FuzzNewBlock', 'fuzztime': '45s', 'timeout': 600},
+   {'pkg': 'c09', 'fuzz': 'FuzzNewTransaction', 'fuzztime': '30s', 'timeout': 600},
+   {'pkg': 'c09', 'fuzz': 'FuzzSMTProof', 'fuzztime': '45s', 'timeout': 600},
+   {'pkg': 'c09', 'fuzz': 'FuzzRMTProof', 'fuzztime': '45s', 'timeout': 600},
+   {'pkg': 'c09', 'fuzz': 'FuzzSingleCommits', 'fuzztime': '30s', 'timeout': 600},
+   {'pkg': 'c09', 'fuzz': 'FuzzGossipEnvelope', 'fuzztime': '30s', 'timeout': 600},
+   {'pkg': 'c09', 'fuzz': 'FuzzResponseEnvelope', 'fuzztime': '30s', 'timeout': 600},
  ],
  'replay': [{'pkg': 'c09', 'run': 'TestReplayCase|TestRandomMutations|TestRandomBytes|TestStructuredRandom', 'checks': 1, 'timeout': 900}],
 }
